@@ -12,7 +12,7 @@
     fuel), run on the encoded table over the default scopes, returns success, and the sorted namespace view of the
     resulting tree (Aml/View.v) IS the namespace [ns] the specification assigns to the program (Aml/Grammar.v). *)
 From Coq Require Import NArith List.
-From FF Require Import Aml.Grammar Aml.WfProgram Aml.ParserFragF0Final Aml.ParserFragF1Final Aml.ParserFragF3Final Aml.ParserFragF4Final.
+From FF Require Import Aml.Grammar Aml.WfProgram Aml.ParserFragF0Final Aml.ParserFragF1Final Aml.ParserFragF3Final Aml.ParserFragF4Final Aml.ParserFragF5Final Aml.ParserFragT2Final.
 Import ListNotations.
 Local Open Scope N_scope.
 
@@ -78,3 +78,33 @@ Theorem C11_parse_encode_partial_F4 : forall tables,
   wf_program tables = true -> in_fragment_F4 tables = true -> parse_encode_statement tables.
 Proof. exact parse_encode_F4. Qed.
 Print Assumptions C11_parse_encode_partial_F4.
+
+(** Fragment F5 ([in_fragment_F5], a boolean) = F4 + the leaf named objects: [Mutex(SEG, sync flags)], [Event(SEG)] and
+    [OperationRegion(SEG, space, offset, length)] whose offset and length are integer constants (Zero / One / Ones /
+    Byte- / Word- / DWord- / QWordPrefix), with single-NameSeg names, anywhere an item of F4 may stand (top level, bodies
+    of Device / ThermalZone / Processor / PowerResource / Method, inside Scope directives over the predefined scopes).
+    Productions added to F4: DefMutex (SyncFlags ByteData), DefEvent, DefOpRegion (RegionSpace ByteData, RegionOffset and
+    RegionLen TermArg = integer constant).  For an OperationRegion the first pass leaves the two TermArgs as the next
+    objects of the enclosing scope and connectNamedObjArgs attaches both (attachSiblingsAsArgs over two siblings, proved
+    for a run of siblings of any length).  Not in the fragment: region offsets / lengths that are expressions or names
+    (known findings c11:named-object-operator-arg, c11:path-inside-named-object-arg), Field declarations. *)
+Theorem C11_parse_encode_partial_F5 : forall tables,
+  wf_program tables = true -> in_fragment_F5 tables = true -> parse_encode_statement tables.
+Proof. exact parse_encode_F5. Qed.
+Print Assumptions C11_parse_encode_partial_F5.
+
+(** Two-table fragment T2 ([in_fragment_T2], a boolean): programs of TWO tables.  The first table is a list of items of
+    F5 (Name / Device / ThermalZone / Processor / PowerResource / Method with declaration-only body / Mutex / Event /
+    OperationRegion with constant arguments, nested to any depth) WITHOUT Scope directives; the second table is a table
+    of F5, i.e. items of F5 and, at its top level, [Scope(\SEG){ items }] / [Scope(SEG){ items }] over the predefined
+    scopes (the usual shape of an SSDT: Scope(\_SB_){ Device ... }).  Each encoded table is shorter than 2^28 bytes.
+    [parse_program] loads the first table with handle 1 and the second one with handle 2 into the tree the first one
+    left (the fuel of the second parse counts the pool slots of the first, see Parser.parse_fuel): the first pass
+    appends to the pool and to the root, connectNamedObjArgs, mergeScopeDirectives, relocateNamedObjects and passes 4-6
+    walk the objects of the first table as well and leave them alone because they carry another table handle, the
+    Scope directives of the second table move their contents below the predefined scopes, and [ns] of the two tables
+    (specification: the second table is resolved against the names of both) is the sorted view of the final tree. *)
+Theorem C11_parse_encode_partial_T2 : forall tables,
+  wf_program tables = true -> in_fragment_T2 tables = true -> parse_encode_statement tables.
+Proof. exact parse_encode_T2. Qed.
+Print Assumptions C11_parse_encode_partial_T2.
